@@ -785,20 +785,20 @@ spif_dlinked_list_insert_at(spif_dlinked_list_t self, spif_obj_t obj, spif_listi
         /* Negative indexes go backward from the end of the list. */
         idx += self->len;
     }
-    REQUIRE_RVAL((idx + 1) > 0, FALSE);
+    REQUIRE_RVAL(idx >= 0, FALSE);
 
-    if (idx == 0 || SPIF_DLINKED_LIST_ITEM_ISNULL(self->head)) {
+    if (idx == 0) {
         return spif_dlinked_list_prepend(self, obj);
-    } else if (idx == (self->len - 1) || SPIF_DLINKED_LIST_ITEM_ISNULL(self->tail)) {
-        return spif_dlinked_list_append(self, obj);
-    } else if (idx > self->len) {
+    } else if (idx >= self->len) {
+        /* At the end, or beyond it (in which case the gap is padded with NULL's). */
         for (i = self->len; i < idx; i++) {
             spif_dlinked_list_append(self, (spif_obj_t) NULL);
         }
         return spif_dlinked_list_append(self, obj);
     } else if (idx > (self->len / 2)) {
-        for (current = self->tail, i = self->len - 1; current->prev && i > idx; i--, current = current->prev);
-        if (i != idx) {
+        /* Walk back from the tail to the item which will precede the new one. */
+        for (current = self->tail, i = self->len - 1; current->prev && i >= idx; i--, current = current->prev);
+        if (i != (idx - 1)) {
             return FALSE;
         }
     } else {
